@@ -345,3 +345,27 @@ def _tuple_ops(body, local):
 
 def _non(F, crate):
     return {c["crate"] for c in F.crates.values()} - {crate}
+
+
+def get_serves_unsettled(R, rule):
+    """An accepted write is served from the cache while its disk write is still in flight: the cache hit of get() must not sit
+    behind `records.contains_key(k)`, because the index is filled only by the completion notice.  (The validate-compare-store
+    functions of the mutable kinds read the local copy through this get; hiding an in-flight write from them lets an older
+    version through — shared with C07.)"""
+    get = R.body(rule, GET)
+    if get is None:
+        return
+    prep(get)
+    g = cfg_of(get)
+    contains = CallGuard(["std::collections::hash::map::HashMap::contains_key"], ("true",), "records.contains_key(k)",
+                         arg_pred=lambda b, blk, t: op_local(t["args"][0]) in Taint(b).closure({d for d, r, p in field_reads(b, "records")}))
+    n, acc, rej = contains.edges(get)
+    cache = CallGuard([RS + "RecordCache::get"], ("Some",), "cache hit")
+    cn, cacc, _ = cache.edges(get)
+    somes = set(AggSink("core::option::Option", "Some", dest_ty="Cow<").blocks(get))
+    hit_somes = {b for b in somes if b not in g.reach((0,), cut=cacc)}
+    ok = bool(hit_somes) and bool(hit_somes & g.reach((0,), cut=acc)) and cn > 0
+    if not ok:
+        R.viol(rule, "cache-behind-index", "NodeRecordStore::get consults the index before the cache: a validated write whose disk write is still in flight is not served, "
+               "so the counter/merge comparison of a following update runs against nothing", get, get.lines[0])
+    R.inst(rule, "K4 gate (must-reach)", "the cache hit of get() is reachable for a key that is not indexed yet (in-flight write)", len(hit_somes), ok)
